@@ -1,4 +1,5 @@
 import Unimock.Lemmas.Verify
+import Unimock.Lemmas.History
 import Unimock.Lemmas.Builder
 import Unimock.Model.Lifecycle
 /-!
@@ -116,5 +117,35 @@ example :
     let m : MethodInfo := ⟨0, "T", "f", false, false, false⟩
     verifyMocker (⟨m, .anyOrder, [p0, p1]⟩ : FnMocker Nat Int) = [.failedVerification m 1 true 2 1] := by
   decide
+
+/-! ## "match count" means what it says: counters along a history -/
+
+/-- **C03, a pattern's counter is the number of calls it answered.** For every state and every history
+    of calls (whatever their outcomes — answered, rejected, mock-induced or user panics), the counter of
+    pattern `(id, pi)` grows by exactly the number of calls of method `id` that were matched by that
+    pattern: unordered, the first pattern whose matcher accepts (C01); ordered, the owner of the current
+    slot when its matcher accepts (C04). No call is counted for a pattern that did not answer it. -/
+theorem C03_counts_are_matches (s : Shared α ρ) (calls : List (MethodInfo × α)) (id pi : Nat) :
+    (runCalls s calls).countOf id pi = s.countOf id pi + matchCount id pi s calls :=
+  runCalls_countOf s calls id pi
+
+/-- … read at the table entry verification inspects: in a mock with distinct method ids whose counters
+    start at 0, after any history every pattern's `count` is its number of matches in that history —
+    so `C03_verify_iff` is a statement about the history. -/
+theorem C03_final_count_is_matches (s0 : Shared α ρ) (hu : s0.UniqueIds) (calls : List (MethodInfo × α))
+    (h0 : ∀ id pi, s0.countOf id pi = 0)
+    (fm : FnMocker α ρ) (hm : fm ∈ (runCalls s0 calls).mockers) (pi : Nat) (p : Pattern α ρ)
+    (hp : fm.pats[pi]? = some p) : p.count = matchCount fm.info.id pi s0 calls := by
+  have hu' := uniqueIds_runCalls s0 calls hu
+  rw [← countOf_of_mem (runCalls s0 calls) hu' fm hm pi p hp, C03_counts_are_matches, h0]
+  omega
+
+/-- non-vacuity: three calls, two of them matched by pattern 0 (first match wins over the catch-all) -/
+example :
+    let mi : MethodInfo := ⟨7, "T", "f", false, false, false⟩
+    let p0 : Pattern Nat Int := ⟨some (fun a => some (a == 1)), none, [⟨0, .ret 5 false, false⟩], 0, 0, 0, .atLeast, 0⟩
+    let p1 : Pattern Nat Int := ⟨some (fun _ => some true), none, [⟨0, .ret 6 false, false⟩], 0, 0, 0, .atLeast, 0⟩
+    let s : Shared Nat Int := ⟨.error, [⟨mi, .anyOrder, [p0, p1]⟩], 0, []⟩
+    matchCount 7 0 s [(mi, 1), (mi, 2), (mi, 1)] = 2 ∧ matchCount 7 1 s [(mi, 1), (mi, 2), (mi, 1)] = 1 := by decide
 
 end Unimock
